@@ -392,6 +392,38 @@ func runC15(w *core.World, r *core.Report) {
 				"behind a range test against the flag count", "a signal number taken from bytecode reaches a State flag accessor that panics out of range, with no range test")
 		}
 	}
+	// the accessor may sit in a helper of package vm that a handler hands the decoded signal to
+	// (a shared signal test of CATCH and CROAK): there the parameter must pass the helper's own
+	// range guard before it reaches the accessor
+	for _, h := range hs {
+		for _, hc := range core.Calls(h) {
+			g := core.StaticCallee(hc)
+			if g == nil || core.PkgOf(g) != "vm" || g == h || len(g.Blocks) == 0 {
+				continue
+			}
+			for i, arg := range core.CallArgs(hc) {
+				src, _, ok := core.ExtractOf(core.Strip(arg))
+				if !ok || !isDecoder(core.StaticCallee(src)) || i >= len(g.Params) {
+					continue
+				}
+				p := g.Params[i]
+				for _, c := range core.CallsTo(g, stMatchFlag, stGetFlag, stSetFlag, stResetFlag) {
+					args := core.CallArgs(c)
+					if len(args) < 2 || core.Strip(args[1]) != ssa.Value(p) {
+						continue
+					}
+					nsig++
+					gcut := core.NewCut()
+					ok2 := false
+					if rangeGuardEdges(g, p, gcut) {
+						ok2, _ = core.MustPass(c.(ssa.Instruction), gcut)
+					}
+					r.Check(ok2, "R7", fmt.Sprintf("%s: %s(decoded signal handed in by %s)", core.QName(g), strings.TrimPrefix(core.CallName(c), "state.(*State)."), core.QName(h)), c.Pos(),
+						"behind a range test against the flag count", "a signal number taken from bytecode reaches a State flag accessor that panics out of range, with no range test")
+				}
+			}
+		}
+	}
 	r.Floor("R7", "bytecode-supplied signal uses", nsig, 2)
 
 	// ---- R8 ----------------------------------------------------------------------------------
